@@ -1309,6 +1309,17 @@ class Compiler:
             "econtext.update(rcontext)", scope=scope, DICT=Builtin("dict")
         )
 
+        # Likewise for the translation settings of elements cut short.
+        i18n = identifier("__i18n", id(node))
+        body += template(
+            "i18n = (__i18n_domain, __i18n_context, target_language)",
+            i18n=i18n
+        )
+        scope_restore += template(
+            "(__i18n_domain, __i18n_context, target_language) = i18n",
+            i18n=i18n
+        )
+
         self._enter_assignment((node.name, ))
         fallback_body = self.visit(node.fallback)
         self._leave_assignment((node.name, ))
